@@ -415,6 +415,27 @@ fn corpus_cases() -> Vec<Case> {
     out
 }
 
+/// syntax tree node kinds counted over the generated base programs (input distribution)
+const CONSTRUCTS: &[(&str, &str)] = &[
+    ("LetBindings(Plain", "let"),
+    ("LetBindings(Recursive", "rec-let"),
+    ("TypeBindings(", "type"),
+    ("Lambda(", "lambda"),
+    ("IfElse(", "if"),
+    ("Match(", "match"),
+    ("Record {", "record"),
+    ("Tuple {", "tuple-or-parens"),
+    ("Array(", "array"),
+    ("Infix {", "infix"),
+    ("Do(", "do-or-seq"),
+    ("App {", "application"),
+    ("Projection(", "projection"),
+    ("Literal(", "literal"),
+    ("Constructor(", "constructor-pattern"),
+    ("comment: Some(", "doc-comment"),
+    ("Attribute {", "attribute"),
+];
+
 fn random_gap(rng: &mut Rng) -> String {
     let mut s = String::new();
     let n = rng.below(6);
@@ -518,9 +539,10 @@ fn main() {
     let mut cases: Vec<Case> = corpus_cases();
 
     // ---- (i) generated programs --------------------------------------------------------
-    let n_programs: usize = args.extra.get("programs").and_then(|s| s.parse().ok()).unwrap_or(if thorough { 400 } else { 60 });
+    let n_programs: usize = args.extra.get("programs").and_then(|s| s.parse().ok()).unwrap_or(if thorough { 400 } else { 40 });
     let styles = pgen::styles();
     let mut gen_texts = 0usize;
+    let mut construct_hist = Hist::default();
     for i in 0..n_programs {
         let depth = 2 + rng.below(3) as u32;
         let decls = 1 + rng.below(5) as usize;
@@ -530,12 +552,21 @@ fn main() {
         for j in 0..(if thorough { 3 } else { 2 }) {
             let (sname, st) = &styles[(k0 + j * 2 + (j / 2)) % styles.len()];
             let text = pgen::render(&prog, st.clone(), &mut rng);
-            if canon::canon_ast(&text).is_err() {
-                // the printer produced something the parser refuses: counted, not used
-                cases.push(Case { family: format!("gen:{}", sname), name: format!("gen{}", i), src: text, prelude: false });
-                continue;
-            }
+            let canon = match canon::canon_ast(&text) {
+                Ok(c) => c,
+                Err(_) => {
+                    // the printer produced something the parser refuses: counted, not used
+                    cases.push(Case { family: format!("gen:{}", sname), name: format!("gen{}", i), src: text, prelude: false });
+                    continue;
+                }
+            };
             gen_texts += 1;
+            for (node, label) in CONSTRUCTS {
+                let n = canon.matches(node).count() as u64;
+                if n > 0 {
+                    construct_hist.addn(&format!("construct:{}", label), n);
+                }
+            }
             let base = Case { family: format!("gen:{}", sname), name: format!("gen{}", i), src: text, prelude: false };
             cases.push(base.clone());
             // comments in EVERY token gap (one at a time) for a share of the programs, random many for all
@@ -705,6 +736,21 @@ fn main() {
             scan_lines.push((format!("back {}", hex(g.as_bytes())), real_scan(&g, false), "synthetic gap".into()));
         }
     }
+    for (k, v) in construct_hist.0.iter() {
+        hist.addn(k, *v);
+    }
+    let mut samples = Vec::new();
+    let mut seen_fam = HashSet::new();
+    for (c, r) in cases.iter().zip(results.iter()) {
+        if let Some(o) = &r.out {
+            let fam = c.family.split(':').next().unwrap_or("").to_string() + if c.family.contains('+') { "+perturbed" } else { "" };
+            if seen_fam.insert(fam) && samples.len() < 6 {
+                samples.push(json!({"family": c.family, "name": c.name,
+                    "source": c.src.chars().take(400).collect::<String>(), "formatted": o.chars().take(400).collect::<String>(),
+                    "failures": r.failures.iter().map(|f| f.0.key.clone()).collect::<Vec<_>>()}));
+            }
+        }
+    }
     let n_scan = scan_lines.len() as u64;
     for (m, im, d) in scan_lines {
         writeln!(model_in, "{}", m).unwrap();
@@ -731,6 +777,7 @@ fn main() {
             "model_lines": n_lines,
             "scanner_inputs": n_scan,
             "failures_by_key": by_key,
+            "samples": samples,
             "hist": hist.to_json(),
         }),
     );
